@@ -610,7 +610,7 @@ def typed_local(e):
 class C03(Prop):
     id = "C03"
     title = "Compiled bytecode computes exactly what LPC semantics define"
-    lean_modules = ["NV.C03.Props", "NV.C03.Props2", "NV.C03.Props3", "NV.C03.Props4", "NV.C03.Props5", "NV.C03.Props6", "NV.C03.Props7", "NV.C03.Props8", "NV.C03.Props9", "NV.C03.Witness"]
+    lean_modules = ["NV.C03.Props", "NV.C03.Props2", "NV.C03.Props3", "NV.C03.Props4", "NV.C03.Props5", "NV.C03.Props6", "NV.C03.Props7", "NV.C03.Props8", "NV.C03.Props9", "NV.C03.Props10", "NV.C03.Witness"]
     theorems = []          # filled below
     witness_theorems = []
     consts = [("oldRangeBehavior", "NV_OLD_RANGE"), ("switchCaseSize", "SWITCH_CASE_SIZE"),
@@ -683,7 +683,7 @@ class C03(Prop):
                 atoms.append("eqUpTo %s" % q.group(1))
                 continue
             raise X.TieBroken("guard:handle_define", "atom outside the guard grammar: `%s` in `%s`" % (at, cond))
-        guards = self.gen_index_guards(X) + self.gen_range_from_end(X)
+        guards = self.gen_index_guards(X) + self.gen_range_from_end(X) + self.gen_add_array_guards(X)
         return guards + ("\n/-- C (lib/lpc/lex.c handle_define): a body identifier of length `idlen` is replaced by parameter n iff\n"
                 "    `%s`  (l = strlen (args[n]); `eqUpTo k` = strncmp (args[n], ids, k) == 0) -/\n"
                 "def macroParamMatch (l idlen : Nat) (eqUpTo : Nat → Bool) : Bool := %s\n" % (cond.replace("-/", "- /"), " && ".join(atoms)))
@@ -792,6 +792,92 @@ class C03(Prop):
                 "    used at all %d `<` sites of f_range / f_extract_range -/\n"
                 "def rangeFromEnd (len i : Int) : Int := %s\n" % (cond, m.group(2).strip(), m.group(3).strip(), len(sites), lean))
 
+    def gen_add_array_guards(self, X):
+        """T4: the five reference-count tests of add_array () (lib/lpc/array.c) that decide between handing an operand back,
+        extending it in place, moving its elements out and copying - transcribed into `NV.Gen.C03.addArray*`; the heap model
+        `NV.C03.Heap.addArray` uses them and `Heap.addArray_refines` (Props10.lean) proves value semantics + no visible change
+        to any array that is still referenced.  The tests are located by what their block DOES, not by comments or lines."""
+        import re
+        src = open(os.path.join(E.REPO, "lib/lpc/array.c")).read()
+        m = re.search(r"\nadd_array \(array_t \* ?p, array_t \* ?r\)\s*\{(.*?)\n\}\n", src, re.S)
+        if not m:
+            raise X.TieBroken("guard:add_array", "add_array (array_t *p, array_t *r) not found in lib/lpc/array.c")
+        body = m.group(1)
+
+        def cond_to_lean(c):
+            c = " ".join(c.split())
+            toks = re.findall(r"\s*(p->ref|r->ref|p|r|==|!=|<=|>=|<|>|&&|\|\||\(|\)|\d+)", c)
+            if "".join(toks) != c.replace(" ", ""):
+                raise X.TieBroken("guard:add_array", "test outside the guard grammar: `%s`" % c)
+            pos = [0]
+
+            def atom():
+                k = toks[pos[0]]
+                if k == "(":
+                    pos[0] += 1
+                    v = disj()
+                    if pos[0] >= len(toks) or toks[pos[0]] != ")":
+                        raise X.TieBroken("guard:add_array", "unbalanced test `%s`" % c)
+                    pos[0] += 1
+                    return "(%s)" % v
+                if pos[0] + 2 >= len(toks) + 0 and False:
+                    pass
+                a, op, b = toks[pos[0]], toks[pos[0] + 1], toks[pos[0] + 2]
+                pos[0] += 3
+                if {a, b} == {"p", "r"} and op in ("==", "!="):
+                    return "same" if op == "==" else "!same"
+                if a in ("p->ref", "r->ref") and b.isdigit():
+                    lop = {"==": "=", "!=": "≠", "<": "<", "<=": "≤", ">": ">", ">=": "≥"}[op]
+                    return "decide (%s %s %s)" % ("pref" if a == "p->ref" else "rref", lop, b)
+                raise X.TieBroken("guard:add_array", "atom outside the guard grammar: `%s %s %s` in `%s`" % (a, op, b, c))
+
+            def conj():
+                v = atom()
+                while pos[0] < len(toks) and toks[pos[0]] == "&&":
+                    pos[0] += 1
+                    v = "%s && %s" % (v, atom())
+                return v
+
+            def disj():
+                v = conj()
+                while pos[0] < len(toks) and toks[pos[0]] == "||":
+                    pos[0] += 1
+                    v = "(%s || %s)" % (v, conj())
+                return v
+            try:
+                v = disj()
+            except IndexError:
+                raise X.TieBroken("guard:add_array", "truncated test `%s`" % c)
+            if pos[0] != len(toks):
+                raise X.TieBroken("guard:add_array", "trailing tokens in `%s`" % c)
+            return v, c
+        out = []
+        # the two size-0 branches: `x->ref--; return y->ref > 1 ? (y->ref--, copy_array (y)) : y;`
+        for name, a, b in (("CopyWhenLeftEmpty", "p", "r"), ("CopyWhenRightEmpty", "r", "p")):
+            g = re.search(r"if \(%s->size == 0\)\s*\{\s*%s->ref--;\s*return ([^?;]*?) \? \(%s->ref--, copy_array \(%s\)\) : %s;\s*\}" % (a, a, b, b, b), body)
+            if not g:
+                raise X.TieBroken("guard:add_array", "size-0 branch for %s not of the form `%s->ref--; return C ? (%s->ref--, copy_array (%s)) : %s;`" % (a, a, b, b, b))
+            out.append((name, "the other operand is copied (not handed back) when %s is empty" % a) + cond_to_lean(g.group(1)))
+        # the three tests are identified by what their block does
+        ifs = [(q.start(), q.group(1)) for q in re.finditer(r"if \(([^{};]*?)\)\s*\{", body)]
+
+        def guard_of(marker, what):
+            k = body.find(marker)
+            if k < 0:
+                raise X.TieBroken("guard:add_array", "statement `%s` (%s) not found in add_array" % (marker, what))
+            before = [c for (st, c) in ifs if st < k]
+            if not before:
+                raise X.TieBroken("guard:add_array", "no test in front of `%s`" % marker)
+            return before[-1]
+        out.append(("Self", "x += x is done in place (the block doubles d->size)") + cond_to_lean(guard_of("d->size <<= 1;", "in-place self append")))
+        out.append(("ReuseLeft", "the left operand is extended in place (RESIZE_ARRAY (p, ..) + d->size = res)") + cond_to_lean(guard_of("d->size = (unsigned short)res;", "left operand extended in place")))
+        out.append(("MoveRight", "the elements are moved out of the right operand, which is freed") + cond_to_lean(guard_of("FREE ((char *) r);", "right operand consumed")))
+        txt = ""
+        for name, what, lean, c in out:
+            txt += ("\n/-- C (lib/lpc/array.c add_array): `%s` - %s (same = `p == r`, pref / rref = the reference counts at that point) -/\n"
+                    "def addArray%s (same : Bool) (pref rref : Nat) : Bool := %s\n" % (c, what, name, lean))
+        return txt
+
     @staticmethod
     def _balanced(t):
         d = 0
@@ -841,6 +927,11 @@ class C03(Prop):
             ("maptrace-crash", ["maptrace ai:16:1"], ["sanitizer ERROR: AddressSanitizer: SEGV", "crash exit 1"], "bad impl-crash"),
             ("macro-body-prefix", ["mdef PICK(ab, a) (a)"], ["D PICK nargs=2 exps=202028404129"], "bad macro-body"),
             ("macro-body-missing", ["mdef PICK(ab, a) (a)"], [], "bad macro-body missing dump"),
+            ("arrtrace-value", ["arrtrace 1 2 0 2 0"], ["A 1 2 0 2 0 res=V ref=1 items=[1,2]"], "bad arrtrace-value"),
+            ("arrtrace-alias", ["arrtrace 1 2 1 2 0"], ["A 1 2 1 2 0 res=P ref=1 items=[1,2,1,2] p=1:[1,2,1,2]"], "bad arrtrace-alias"),
+            ("arrtrace-operand", ["arrtrace 0 2 1 1 0"], ["A 0 2 1 1 0 res=V ref=1 items=[1,2,101] p=1:[1,2,101]"], "bad arrtrace-operand"),
+            ("arrtrace-ref", ["arrtrace 0 0 0 2 2"], ["A 0 0 0 2 2 res=V ref=3 items=[101,102] r=2:[101,102]"], "bad arrtrace-ref"),
+            ("arrtrace-missing", ["arrtrace 0 0 0 2 2"], [], "bad arrtrace-missing"),
         ]
         cases = [E.Case("n%d" % k, lines + ["--"] + impl) for k, (_, lines, impl, _) in enumerate(neg)]
         out = E.nvdrive(self.id, "judge", E.cases_text(cases))
@@ -854,7 +945,7 @@ class C03(Prop):
         return problems
 
     def nontrivial_key(self, case, out):
-        vals = [l for l in out if l.startswith("r ") and not l.endswith("!err") and not l.endswith("!nofn")]
+        vals = [l for l in out if (l.startswith("r ") or l.startswith("A ")) and not l.endswith("!err") and not l.endswith("!nofn")]
         if not vals:
             return None
         import hashlib
@@ -2024,8 +2115,21 @@ class C03(Prop):
         same.append([9, 10])
         return make_case(cid, fns, same=same, defines=APN_LPC, meta={"origin": "generated", "family": "funp", "mode": mode})
 
+    def fam_arrtrace(self, rng, cid):
+        """unit traces of add_array () with chosen reference counts (who else holds the operands), compared with the heap model
+        NV.C03.Heap.addArray and judged by value semantics"""
+        lines = []
+        for _ in range(rng.range(6, 14)):
+            same = 1 if rng.chance(1, 3) else 0
+            ps = rng.choice([0, 0, 1, 2, 3, 5, 8, 17])
+            rs = ps if same else rng.choice([0, 0, 1, 2, 4, 9])
+            pe = rng.choice([0, 0, 1, 2, 3])
+            re_ = 0 if same else rng.choice([0, 0, 1, 2])
+            lines.append("arrtrace %d %d %d %d %d" % (same, ps, pe, rs, re_))
+        return E.Case(cid, lines, {"origin": "generated", "family": "arrtrace"})
+
     FAMS = [("fam_binop", 9), ("fam_unop", 2), ("fam_incdec", 3), ("fam_index", 5), ("fam_range", 5), ("fam_lvalue", 6),
-            ("fam_switch", 6), ("fam_loop", 6), ("fam_assignop", 5), ("fam_literal", 2), ("fam_rewrite", 4), ("fam_macro", 3), ("fam_calls", 5), ("fam_mapalg", 7), ("fam_maptrace", 5), ("fam_macrosubst", 7), ("fam_mdef", 4), ("fam_strswitch", 6), ("fam_selfop", 8), ("fam_funp", 8)]
+            ("fam_switch", 6), ("fam_loop", 6), ("fam_assignop", 5), ("fam_literal", 2), ("fam_rewrite", 4), ("fam_macro", 3), ("fam_calls", 5), ("fam_mapalg", 7), ("fam_maptrace", 5), ("fam_macrosubst", 7), ("fam_mdef", 4), ("fam_strswitch", 6), ("fam_selfop", 8), ("fam_funp", 8), ("fam_arrtrace", 3)]
 
     def generate(self, rng, n, tier):
         out = []
@@ -2139,7 +2243,7 @@ PROP.theorems = ["NV.C03." + t for t in (
     "HT.mapping_lookup_after_insert", "HT.empty_refines",
     "Macro.macroParamMatch_iff", "Macro.matchParam_eq_paramOf", "Macro.specGo_eq", "Macro.scan_eq", "Macro.goRaw_blank",
     "Macro.macro_definition_agrees", "Macro.macro_expansion_agrees",
-    "index_guard_buf", "index_guard_str", "index_guard_arr",
+    "index_guard_buf", "index_guard_str", "index_guard_arr", "Heap.addArray_refines", "Heap.addArray_value",
     "mem_sortEntries", "pairwise_sortEntries", "sortedT_of_pairwise", "mem_strEntries", "string_switch_agrees",
     "wrap_id", "wrap_range", "tdiv_range", "tmod_range", "idiv_eq", "imod_eq")]
 PROP.witness_theorems = ["NV.C03." + t for t in (
